@@ -57,7 +57,7 @@ func runUtils(sc scenario) result {
 		}
 	case 10:
 		res = okInts(boolInt(priority.IsNonFatalConfig(priorities, dv, quantity)))
-		for _, l := range []float64{0, 1, 2, 5, 10, 20, 33, 50, 75, 100} {
+		for _, l := range []float64{0, 1, 2, 5, 10, 20, 33, 50, 75, 100, 101, 150, 400, 100000} {
 			res.addI(boolInt(priority.IsSuitableConfig(priorities, dv, quantity, l)))
 		}
 	default:
